@@ -122,29 +122,28 @@ Proof. intros H. unfold log_prepare. destruct (first s); [apply Nw_prim; [apply 
 
 (* the rename chain either renames main away or leaves it alone *)
 Lemma chain_last2 rest : forall a0 s s' l', chain a0 rest s = (s', l') ->
-  (last l' None = None \/ last l' None = last (a0 :: rest) None) /\ since s' = since s.
+  (last l' None = None \/ last l' None = last (a0 :: rest) None) /\ since s' = since s /\
+  (fault s = false -> fault s' = true -> last l' None = last (a0 :: rest) None).
 Proof.
   induction rest as [|a1 rest IH]; intros a0 s s' l' E; cbn [chain] in E.
-  - inversion E; subst. split; [right|]; reflexivity.
-  - destruct (crashed s); [inversion E; subst; split; [right|]; reflexivity|].
-    assert (G : forall s0, since s0 = since s ->
-              match a1 with
-              | None => (set_fuel s0 (fuel s0) false true, a0 :: a1 :: rest)
-              | Some c => let '(s'', r') := chain None rest s0 in (s'', Some c :: r')
-              end = (s', l') ->
-              (last l' None = None \/ last l' None = last (a0 :: a1 :: rest) None) /\ since s' = since s).
-    { intros s0 S0 E'. destruct a1 as [c|]; [|inversion E'; subst; split; [right; reflexivity|exact S0]].
-      destruct (chain None rest s0) as [s'' r'] eqn:EC. inversion E'; subst.
-      destruct (IH _ _ _ _ EC) as [L S]. split; [|congruence].
-      destruct rest as [|a2 rest'].
-      - cbn in EC. inversion EC; subst. left. reflexivity.
-      - assert (NE : r' <> []).
-        { apply chain_length in EC. destruct r'; [discriminate EC|discriminate]. }
-        destruct r' as [|x r'']; [congruence|].
-        change (last (Some c :: x :: r'') None) with (last (x :: r'') None).
-        change (last (a0 :: Some c :: a2 :: rest') None) with (last (a2 :: rest') None).
-        change (last (None :: a2 :: rest') None) with (last (a2 :: rest') None) in L. exact L. }
-    destruct (fuel s) as [[|n]|]; [inversion E; subst; split; [right|]; reflexivity| |]; eapply G; try exact E; reflexivity.
+  - inversion E; subst. split; [right; reflexivity|]. split; reflexivity.
+  - destruct (rename_gate s) as [sg b] eqn:EG.
+    destruct (gate_spec _ _ _ EG) as [[_ [_ [_ [_ [_ [_ F7]]]]]] [_ [Gt _]]].
+    destruct b; [|inversion E; subst; split; [right; reflexivity|split; [exact F7|reflexivity]]].
+    destruct (Gt eq_refl) as [_ [_ Gfa]].
+    destruct a1 as [c0|]; [|inversion E; subst; split; [right; reflexivity|split; [exact F7|reflexivity]]].
+    destruct (chain None rest sg) as [s'' r'] eqn:EC. inversion E; subst.
+    destruct (IH _ _ _ _ EC) as [L [S Lf]]. 
+    destruct rest as [|a2 rest'].
+    + cbn in EC. inversion EC; subst. split; [left; reflexivity|]. split; [congruence|].
+      intros F0 F1. congruence.
+    + assert (NE : r' <> []).
+      { apply chain_length in EC. destruct r'; [discriminate EC|discriminate]. }
+      destruct r' as [|x r'']; [congruence|].
+      change (last (Some c0 :: x :: r'') None) with (last (x :: r'') None).
+      change (last (a0 :: Some c0 :: a2 :: rest') None) with (last (a2 :: rest') None).
+      change (last (None :: a2 :: rest') None) with (last (a2 :: rest') None) in L, Lf.
+      split; [exact L|]. split; [congruence|]. intros F0 F1. apply Lf; [congruence|exact F1].
 Qed.
 
 Lemma Nw_cycle c size s : Nw s -> Nw (log_cycle c size s).
@@ -164,7 +163,7 @@ Proof.
   { unfold chain_files in EC. destruct (files s2) as [|a0 rest] eqn:F2.
     - inversion EC; subst. unfold Nw, s4, bufc, mainf. cbn. rewrite Hb. cbn. rewrite Nat.sub_diag. split; [reflexivity|lia].
     - destruct (chain_spec _ _ _ _ _ EC) as [_ [_ [G1 [G2 [G3 _]]]]].
-      destruct (chain_last2 _ _ _ _ _ EC) as [L S]. cbn in G1, G2, G3, S.
+      destruct (chain_last2 _ _ _ _ _ EC) as [L [S _]]. cbn in G1, G2, G3, S.
       unfold Nw, s4, bufc. unfold mainf at 1. cbn -[oids seq Nat.sub]. rewrite G2, Hb, G3. cbn -[oids seq Nat.sub].
       destruct H2 as [N1 N2]. unfold bufc in N1. rewrite Hb in N1. cbn -[oids seq Nat.sub] in N1.
       destruct (last fs None) as [m|] eqn:LF.
@@ -230,4 +229,40 @@ Proof.
   replace (next s - dropped s)%nat with ((since s - dropped s) + (next s - since s))%nat in D1 by lia.
   rewrite seq_app in D1. replace (dropped s + (since s - dropped s))%nat with (since s) in D1 by lia.
   apply app_eq_len_tail in D1; [exact D1|reflexivity].
+Qed.
+
+(* ---------- with a rename-failure oracle ---------- *)
+Lemma DE_set_rfail c s rf fa : DE c s -> DE c (set_rfail s rf fa).
+Proof. intros [A B]. split; [eapply D_ext; [..|exact A]|eapply E_ext; [..|exact B]]; reflexivity. Qed.
+
+Lemma runf_retained_l c t0 fu rf ops : let s := runf c t0 fu rf ops in
+  view (files s) ++ ids (bufc s) = seq (dropped s) (next s - dropped s).
+Proof. cbv zeta. apply (DE_runfrom c ops _ (DE_set_rfail c _ rf false (DE_init_empty c t0 fu))). Qed.
+
+Lemma runf_crash_l c t0 fu rf ops pre : let s := runf c t0 fu rf ops in
+  is_prefix pre (bufc s) ->
+  exists b, (flushed s <= b <= next s)%nat /\ (dropped s <= b)%nat /\
+            view (survivors s pre) = seq (dropped s) (b - dropped s).
+Proof.
+  cbv zeta. intros P. apply survivors_of_D; [|exact P].
+  apply (DE_runfrom c ops _ (DE_set_rfail c _ rf false (DE_init_empty c t0 fu))).
+Qed.
+
+Lemma runf_newest_l c t0 fu rf ops : let s := runf c t0 fu rf ops in
+  oids (mainf s) ++ ids (bufc s) = seq (since s) (next s - since s) /\ (since s <= next s)%nat.
+Proof.
+  cbv zeta. apply Nw_runfrom. eapply Nw_ext; [reflexivity|reflexivity|reflexivity|reflexivity|].
+  unfold Nw, init, bufc, mainf, empty_disk. cbn -[repeat oids seq Nat.sub].
+  rewrite last_repeat_none. cbn. split; [reflexivity|lia].
+Qed.
+
+(* a failing rename stops the chain: only the oldest copy's records can be gone, in stream order nothing is
+   overwritten, and the main file (header included) is exactly what it was *)
+Lemma failed_chain_l a0 rest s s' l' : chain a0 rest s = (s', l') -> fault s = false -> fault s' = true ->
+  (view l' = view (a0 :: rest) \/ view l' = view rest) /\ last l' None = last (a0 :: rest) None /\
+  length l' = length (a0 :: rest).
+Proof.
+  intros E F0 F1. destruct (chain_spec _ _ _ _ _ E) as [V _].
+  destruct (chain_last2 _ _ _ _ _ E) as [_ [_ L]]. split; [exact V|]. split; [apply L; assumption|].
+  apply chain_length in E. exact E.
 Qed.
